@@ -365,6 +365,33 @@ Example c09_example_rejected_authentication :
                          we_prf_hashed := None |} |} = Some WSyntaxError.
 Proof. reflexivity. Qed.
 
+(** *** the source of extension processing as it is now (extensions/hmac_secret.rs, lists regenerated on every run): the
+    secrets are two independent random draws, a PRF evaluation is an HMAC with one of them (the gated one when verified,
+    otherwise the non-gated one or the error), and the lists equal the order the model was written from *)
+From Coq Require Import String.
+From PK Require Auth.SkeletonFacts Auth.gen.Skeleton Auth.OrderList.
+Theorem c09_secret_provenance_in_source :
+(  filter SkeletonFacts.is_effect_mark (Skeleton.SRC_MAKE_HMAC_SECRET ++ Skeleton.SRC_CALCULATE_HMAC_SECRET) = SkeletonFacts.expand "MakeExt"
+  /\ filter SkeletonFacts.is_effect_mark Skeleton.SRC_CALCULATE_HMAC_SECRET = SkeletonFacts.expand "GetExt"
+  /\ OrderList.before "CredWithUv" "Rand" Skeleton.SRC_MAKE_HMAC_SECRET = true
+  /\ OrderList.before "CredWithoutUv" "WithoutUvCfg" Skeleton.SRC_MAKE_HMAC_SECRET = true
+  /\ OrderList.first_pos "Hmac" Skeleton.SRC_MAKE_HMAC_SECRET = None /\ OrderList.first_pos "Sha256" Skeleton.SRC_MAKE_HMAC_SECRET = None
+  /\ OrderList.first_pos "CalcHmac" Skeleton.SRC_MAKE_HMAC_SECRET = None
+  /\ OrderList.first_pos "Rand" Skeleton.SRC_CALCULATE_HMAC_SECRET = None /\ OrderList.first_pos "Rand" Skeleton.SRC_GET_PRF = None
+  /\ OrderList.first_pos "Rand" Skeleton.SRC_MAKE_PRF = None
+  /\ OrderList.first_pos "Update" Skeleton.SRC_GET_PRF = None /\ OrderList.first_pos "Save" Skeleton.SRC_GET_PRF = None
+  /\ OrderList.first_pos "Update" Skeleton.SRC_CALCULATE_HMAC_SECRET = None
+  /\ OrderList.before "Err UserVerificationBlocked" "Hmac" Skeleton.SRC_CALCULATE_HMAC_SECRET = true)%string.
+Proof. exact SkeletonFacts.source_secret_provenance. Qed.
+Theorem c09_extension_source_is_the_modelled_one :
+  Skeleton.SRC_MAKE_HMAC_SECRET = SkeletonFacts.EXP_MAKE_HMAC_SECRET /\ Skeleton.SRC_MAKE_PRF = SkeletonFacts.EXP_MAKE_PRF
+  /\ Skeleton.SRC_GET_PRF = SkeletonFacts.EXP_GET_PRF /\ Skeleton.SRC_CALCULATE_HMAC_SECRET = SkeletonFacts.EXP_CALCULATE_HMAC_SECRET
+  /\ Skeleton.SRC_SELECT_SALTS = SkeletonFacts.EXP_SELECT_SALTS.
+Proof.
+  exact (conj SkeletonFacts.src_make_hmac_secret_order (conj SkeletonFacts.src_make_prf_order (conj SkeletonFacts.src_get_prf_order
+        (conj SkeletonFacts.src_calculate_hmac_secret_order SkeletonFacts.src_select_salts_order)))).
+Qed.
+
 Print Assumptions c09_salt.
 Print Assumptions c09_hashed_inputs.
 Print Assumptions c09_prehashed_inputs.
@@ -399,3 +426,5 @@ Print Assumptions c09_auth_uses_hashed.
 Print Assumptions c09_auth_no_allow_list.
 Print Assumptions c09_auth_bad_key.
 Print Assumptions c09_auth_bad_length.
+Print Assumptions c09_secret_provenance_in_source.
+Print Assumptions c09_extension_source_is_the_modelled_one.
